@@ -8,16 +8,28 @@ import MdkVerif.Props.C01Fork
   MdkVerif.Proofs.Chain — lemmas for lifting the single-fork theorems of C01 to many clients and to
   chains of forks (`Props/C01Chain.lean`).
 
-  §A  frame lemmas for `deliver`, for EVERY state / event / fuel.  This is the only section that
-      unfolds `step1` / `deliverOnce` / the handlers of Model.Client; everything after it goes through
-      the statements of Proofs/Fork.lean (`rel_run`, `rel2_run`, `CForm`, …) and of §A.
+  §A  frame lemmas for `deliver`, for EVERY state / event / fuel (`Frame`, `frame_deliverN`); stale events
+      fail the outer layer (`outerOpens_stale`, `stale_deliverN`).
   §B  the child state as a function of the parent group state (`childOfG`), chains of children
       (`chainG`), the core of a group state (path, members, admins, name).
   §C  stale events (created on a branch the client is not on) keep the fork simulation: mixed runs.
   §D  one fork level for a client in any role (`AtFork`), with everything the simulation knows exposed.
   §E  the induction over the levels of a chain (stale events interleaved; the pure case as a corollary).
-  §F  a rollback over two epochs (unfolds `wrongEpochCommit`, `isBetter`, `rollbackTo`, `mgrCreate`).
-  §G  the consumed ratchet generations: frame and invariant (unfolds the step functions like §A).
+  §F  a rollback over two epochs.
+  §G  the consumed ratchet generations: frame and invariant.
+
+  REPAIR AFTER A CHANGE OF Model/Client.lean.  The lemmas that unfold definitions of the model (instead of
+  going through the statements of Proofs/Fork.lean, Proofs/ForkInv.lean, Proofs/Client.lean) are:
+    §A  `frame_rollbackTo` … `frame_deliverOnce` (step1, deliverOnce, the handlers, rollbackTo),
+        `outerOpens_stale` (outerOpens), `stale_deliverN` (step1, deliverOnce);
+    §B  `ensureSecret_eq`, `childOfG_commit`, `core_childOfG` (ensureSecret, mergeCommit, applyBody, syncRec);
+    §C  `quiet_stale` (recordFailure, setRec — through `stale_deliverN`);
+    §F  `isBetter_mid`, `rollback_mid`, `apply_parent_mgr`, and the last rewriting step of `depth2_core`
+        (isBetter, rollbackTo, mgrCreate, wrongEpochCommit);
+    §G  `cstep_rollbackTo` … `cstep_deliverOnce`, `consMono_send` … `consMono_restart`
+        (the same functions as §A, plus the local operations).
+  Everything else (§C–§E in particular: `rel_stale`, `fork_level_mixed`, `chain_step`, `chain_rest_mixed`,
+  `chain_run_mixed`) uses only statements.
 -/
 namespace MdkVerif.Chain
 open MdkVerif MdkVerif.Client MdkVerif.Fork MdkVerif.Props.C01Fork
